@@ -38,7 +38,7 @@ DESIGN_REF = "DESIGN.md 4 C06"
 WEIGHTS = ["none", "frac", "zeros"]
 REQUIRED_REACH = ["partition_count", "twin", "table_name", "tabbook", "ca_as_0th", "numsum",
                   "class:table=CAT", "class:table=MR", "class:table=ARR", "class:square",
-                  "class:corpus"]
+                  "class:corpus", "filtercols", "class:augmented"]
 BATCH = 20
 UNIT_TIMEOUT_S = 40
 
@@ -48,7 +48,8 @@ def units(tier, seed):
 
     n = 800 if tier == "quick" else 30000
     # W1 synthetic surveys, then W3: the real 3-D payloads of the fixture corpus
-    return [{"i": i, "seed": seed} for i in range(n)] + corpus.units(
+    fc = [{"fc": k, "seed": seed} for k in range(80 if tier == "quick" else 3000)]
+    return [{"i": i, "seed": seed} for i in range(n)] + fc + corpus.units(
         tier, seed, reps=2 if tier == "quick" else 12)
 
 
@@ -61,6 +62,9 @@ def make_case(unit):
         return {"mode": "corpus3d", "fixture": rel, "population": 1000,
                 "transforms": {} if unit["rep"] == 0 else
                 corpus.random_full_transforms(g, corpus.load(rel))}
+    if "fc" in unit:
+        from .. import filtercols
+        return filtercols.make_case(gen.G("C06/fc/%s/%s" % (unit["seed"], unit["fc"])), "C06")
     i = unit["i"]
     g = gen.G("C06/%s/%s" % (unit["seed"], i))
     mode = MODES[i % len(MODES)]
@@ -445,6 +449,9 @@ def _check_corpus3d(res, case):
 
 
 def check_case(case):
+    if case.get("mode") == "filtercols":
+        from .. import filtercols
+        return filtercols.check(case, ID)
     res = CaseResult()
     mode = case["mode"]
     res.classes.append("mode=%s" % mode)
